@@ -1167,9 +1167,7 @@ Triggers(cfg, pre, post) ==
                  \E b \in DOMAIN pre.nodes[post.steps[a].n].srv :
                      pre.nodes[post.steps[a].n].srv[b].cust = post.steps[a].i /\ pre.nodes[post.steps[a].n].srv[b].off
           THEN {"F23"} ELSE {})
-    \cup (IF post.ev.kind = "arrival" /\ post.now = 0 /\ post.ev.node \in DOMAIN cfg.nodes
-              /\ cfg.nodes[post.ev.node].kind \in {"slot", "ps"}
-          THEN {"F14"} ELSE {})
+
 
 
 \* non-vacuity witnesses of one event
